@@ -836,3 +836,94 @@ impl CamtCase {
         }
     }
 }
+
+// ---------------------------------------------------------------------------------------
+// Viseca card statements (text extracted from PDF)
+
+#[derive(Clone, Debug)]
+pub struct VisecaCase {
+    pub account: String,
+    pub file_name: String,
+    pub text: String,
+    pub config_yaml: String,
+    pub entries: usize,
+}
+
+fn apostrophe_number(q: Q) -> String {
+    // 1'803.05
+    let (m, s) = q.as_decimal_parts(4).expect("finite");
+    let mut m = m;
+    let mut s = s;
+    while s < 2 {
+        m *= 10;
+        s += 1;
+    }
+    let mut d = Dec::new(m.abs(), s);
+    d.grouped = true;
+    d.text().replace(',', "'")
+}
+
+impl VisecaCase {
+    pub fn generate(rng: &mut Rng, payees: &[&str]) -> VisecaCase {
+        let cent = Q::from_parts(1, 2).unwrap();
+        let n = 1 + rng.usize(8);
+        let mut text = String::new();
+        let mut day = NaiveDate::from_ymd_opt(2020, 8, 1).unwrap();
+        for _ in 0..n {
+            day += chrono::Duration::days(rng.range(0, 6));
+            let eff = day + chrono::Duration::days(rng.range(0, 2));
+            // the statement is line based: a payee cannot hold a line break
+            let payee: String = rng.pick(payees).replace(['\n', '\r'], " ");
+            let amount = Q::int(rng.range(1, 400000) as i128).mul(cent).unwrap();
+            let neg = rng.chance(1, 6);
+            let fmt = |d: NaiveDate| d.format("%d.%m.%y").to_string();
+            match rng.below(4) {
+                0 => {
+                    // foreign currency with exchange rate and fee
+                    let spent = Q::int(rng.range(1, 300000) as i128).mul(cent).unwrap();
+                    let rate = Q::from_parts(1092432, 6).unwrap();
+                    let equiv = spent.mul(rate).unwrap().round_half_even(2).unwrap();
+                    text.push_str(&format!("{} {} {} EUR {} {}{}\n", fmt(day), fmt(eff), payee, apostrophe_number(spent), apostrophe_number(amount), if neg { " -" } else { "" }));
+                    text.push_str("Service stations\n");
+                    text.push_str(&format!("Exchange rate {} of {} CHF {}\n", q_text(rate), fmt(eff), apostrophe_number(equiv)));
+                    if rng.chance(1, 2) {
+                        text.push_str(&format!("Processing fee 1.75% CHF {}\n", apostrophe_number(Q::int(rng.range(1, 900) as i128).mul(cent).unwrap())));
+                    }
+                }
+                1 => {
+                    // same currency stated explicitly, optional fee
+                    text.push_str(&format!("{} {} {} CHF {} {}{}\n", fmt(day), fmt(eff), payee, apostrophe_number(amount), apostrophe_number(amount), if neg { " -" } else { "" }));
+                    text.push_str("Game, toy, and hobby shops\n");
+                    if rng.chance(1, 2) {
+                        text.push_str(&format!("Processing fee 1.75% CHF {}\n", apostrophe_number(Q::int(rng.range(1, 900) as i128).mul(cent).unwrap())));
+                    }
+                }
+                2 => {
+                    text.push_str(&format!("{} {} {} {}{}\n", fmt(day), fmt(eff), payee, apostrophe_number(amount), if neg { " -" } else { "" }));
+                    text.push_str("Telecommunication services\n");
+                }
+                _ => {
+                    // no category line (e.g. a payment)
+                    text.push_str(&format!("{} {} {} {} -\n", fmt(day), fmt(eff), payee, apostrophe_number(amount)));
+                }
+            }
+        }
+        let account = random_account(rng, "Liabilities");
+        let file_name = format!("viseca{}.txt", rng.below(1000));
+        let config_yaml = format!(
+            "path: {}\nencoding: UTF-8\naccount: {}\naccount_type: liability\noperator: Okane Card (fee)\ncommodity: CHF\nrewrite:\n  - account: Expenses:Telecom\n    matcher:\n    - category: Telecommunication services\n  - account: Expenses:Car:Gas\n    pending: true\n    matcher:\n    - category: Service stations\n",
+            yaml_str(&file_name),
+            yaml_str(&account)
+        );
+        VisecaCase { account, file_name, text, config_yaml, entries: n }
+    }
+
+    pub fn write(&self, dir: &Path) -> std::io::Result<(PathBuf, PathBuf)> {
+        std::fs::create_dir_all(dir)?;
+        let cfg = dir.join("config.yml");
+        let src = dir.join(&self.file_name);
+        std::fs::write(&cfg, &self.config_yaml)?;
+        std::fs::write(&src, &self.text)?;
+        Ok((cfg, src))
+    }
+}
